@@ -27,7 +27,7 @@
 
   Main theorems: `C03_code_block_phase_partial`, `C03_code_document_partial`, `C03_code_render_partial`,
   `C03_code_html_partial`.  Non-vacuity examples, the comparison with kernel evaluation and the counterexamples are in
-  `Proofs/ComposeCode2.lean`.
+  `Proofs/ComposeCode2.lean` (fences) and `Proofs/ComposeCode3.lean` (setext headings).
 -/
 import Mistletoe.Proofs.ComposeLists2
 import Mistletoe.Proofs.MdRoundCode
@@ -244,7 +244,7 @@ def ulShape (lv : Nat) (s : Str) : Bool :=
    | [] => false)
 
 /-- an underline: the shape, and the facts about the scanners the proof uses (every line of the shape has them, see the
-    example in `Proofs/ComposeCode2.lean`, which checks all 192 underlines of at most 3 + 6 + 3 characters): it is not blank; no `Heading`,
+    example in `Proofs/ComposeCode3.lean`, which checks all 192 underlines of at most 3 + 6 + 3 characters): it is not blank; no `Heading`,
     `Quote`, `CodeFence`, `HtmlBlock` starts on it and `List.check_interrupts_paragraph` does not fire (`-` alone would
     begin an EMPTY item, which does not interrupt a paragraph); `Paragraph.setext_pattern` matches it; its last visible
     character tells the level -/
@@ -1984,7 +1984,7 @@ theorem renderHtml_writes3 (o : Opts) (ts : List T3) (h : T3.oks ts = true) (hne
   less than the item; a content line that `CodeFence.read` takes for a closing line although the specification does not:
   the fence string followed directly by other non-blank characters (see the counterexample in `Proofs/ComposeCode2.lean`); setext headings
   inside block quotes (`Quote.read` switches `Paragraph.parse_setext` off for the quote's content: recorded finding, the
-  text lines and the underline come out as one paragraph; see the example in `Proofs/ComposeCode2.lean`). -/
+  text lines and the underline come out as one paragraph; see the example in `Proofs/ComposeCode3.lean`). -/
 
 /-- **The block phase parses a written tree back (lists and fenced code blocks included).**  For every well-formed forest
     `ts`, either `tableInterrupt`, every gas ≥ `needs3 ts`: one entry per top-level node - for a fenced block a `CodeFence`
